@@ -678,8 +678,33 @@ func (g *gen) attackVote(kind string, h uint64, r uint32) *voteMsg {
 		return out
 	}
 
-	att := g.pick(17)
+	att := g.pick(18)
 	switch att {
+	case 17: // one or two genuine signatures, each listed under its own key id first and then,
+		// the very same bytes, under the key ids of the other validators
+		m.desc = "one-signature-many-keyids"
+		hash := tgt()
+		if bs := g.roundBlocks[[2]uint64{h, uint64(r)}]; len(bs) > 0 && g.pick(3) != 0 {
+			// mostly for a block the node knows: the copies would make it a commit or a quorum
+			hash = bs[g.pick(len(bs))]
+		}
+		signers := capSigners(hash, g.randSubset(n, 30))
+		if len(signers) > 2 {
+			signers = signers[:2]
+		}
+		for _, i := range signers {
+			sig := g.w.sign(set.keys[i], kind, h, r, hash)
+			add(hash, gcrypto.SparseSignature{KeyID: be16(i), Sig: sig}, sigMeta{i, true, "ok"})
+			for j := 0; j < n; j++ {
+				own := false
+				for _, k := range signers {
+					own = own || k == j
+				}
+				if !own && g.pick(4) != 0 {
+					add(hash, gcrypto.SparseSignature{KeyID: be16(j), Sig: bytes.Clone(sig)}, sigMeta{j, false, "copied"})
+				}
+			}
+		}
 	case 16: // signed by the previous height's validator set, labelled with that set's hash
 		// (a stale peer, or validators the last block removed); nothing here is valid for
 		// this height unless the two sets share a key at the same index
